@@ -7,15 +7,17 @@
                                   checkContextNow (non-blocking receive from ctx.Done())
                                   ExecuteContext  (checkCtx, ctx, ctxDone, ctxOps = 0)
    interp/interp.go:              executeAll / execActions (BEGIN, rules per record, END; after an error
-                                  the context's error is preferred; closeAll is deferred)
+                                  the context's error is preferred; closeAll is deferred; the record
+                                  loop starts with the same `if p.checkCtx { p.checkContext() }`)
 
    The counter p.ctxOps is a field of the interpreter, hence ONE counter shared by the nested
    execute calls of for-in bodies, function bodies, patterns, rule bodies and END: [run_ctx]
    threads one [cstate] through all of them.
 
-   Ghost state: [clock] = number of instructions executed so far (dispatches whose poll let
-   them through); [done_at = Some t] = ctx.Done() is closed from the moment t instructions have
-   been executed (0: cancelled before the call).  A script-callable native function may cancel
+   Ghost state: [clock] = number of steps so far: instructions executed (dispatches whose poll
+   let them through) plus records fetched by the record loop of execActions, which polls the
+   same counter once per record; [done_at = Some t] = ctx.Done() is closed from the moment t
+   steps have been made (0: cancelled before the call).  A script-callable native function may cancel
    the context itself: [cancel_req] observes that in the interpreter state, and the dispatch
    that executed the call latches [done_at := Some clock] (a context, once cancelled, stays so). *)
 From Verif Require Import Lib.Base Model.Ast Model.Instr Model.Compiler Model.Prims Model.VM Gen.Consts.
@@ -25,7 +27,7 @@ Set Implicit Arguments.
 Record cstate : Type := {
   checkCtx : bool;          (* p.checkCtx *)
   ctxOps : Z;               (* p.ctxOps *)
-  clock : Z;                (* ghost *)
+  clock : Z;                (* ghost: steps so far = instructions executed + records fetched by execActions *)
   done_at : option Z;       (* ghost *)
   ops_at_cancel : Z         (* ghost: p.ctxOps when the script itself cancelled the context (-1: it did not) *)
 }.
@@ -233,6 +235,11 @@ Section Cancel.
     match n with
     | O => (CRes VFuel, cs)
     | S n' =>
+      (* head of the record loop: if p.checkCtx { err := p.checkContext(); if err != nil { return err } }
+         -- the same counting poll as a dispatch: a record is one step of the shared counter *)
+      let '(stop, cs0) := poll cs in
+      if stop then (CCtx m, cs0) else
+      let cs := tick cs0 in
       match io_next_line IO (ms m) with
       | (s, EErr e) => (CRes (VAbort (XError e) (with_ms m s)), cs)
       | (s, EOk None) => (CRes (VDone stk (with_ms m s)), cs)
